@@ -176,22 +176,25 @@ Fixpoint tree_predict {L} (t : tree L) (x : frow) : L :=
     target element before the call: it survives when no knot satisfies [knot >= val] *)
 Fixpoint position (p : F -> bool) (l : frow) (i : nat) : option nat :=
   match l with [] => None | a :: l' => if p a then Some i else position p l' (S i) end.
-Definition iso_predict (reg resp : frow) (y0 v : F) : F :=
+(* what one iteration of the loop writes into y[i]; None = the element is left untouched *)
+Definition iso_value (reg resp : frow) (v : F) : option F :=
   let z := zero o in
   let n := length reg in
   let x_min := nth 0 reg z in
   let x_max := nth (n - 1) reg z in
   let y_min := nth 0 resp z in
   let y_max := nth (n - 1) resp z in
-  if leb o x_max v then y_max
-  else if leb o v x_min then y_min
+  if leb o x_max v then Some y_max
+  else if leb o v x_min then Some y_min
   else match position (fun x => leb o v x) reg 0 with
        | Some j =>
            if (leb o v (nth j reg z) && Nat.ltb j n)%bool
            then let x_scale := div o (sub o v (nth (j - 1) reg z)) (sub o (nth j reg z) (nth (j - 1) reg z)) in
-                add o (nth (j - 1) resp z) (mul o x_scale (sub o (nth j resp z) (nth (j - 1) resp z)))
-           else y_min
-       | None => y0
+                Some (add o (nth (j - 1) resp z) (mul o x_scale (sub o (nth j resp z) (nth (j - 1) resp z))))
+           else Some y_min
+       | None => None
        end.
+Definition iso_predict (reg resp : frow) (y0 v : F) : F :=
+  match iso_value reg resp v with Some r => r | None => y0 end.
 End RowFns.
 Arguments Leaf {F L}. Arguments Node {F L}.
